@@ -102,6 +102,9 @@ class Engine:
             a, b = z3.Int('ax!v'), z3.Int('ax!i')
             t = elem(a, b)
             out.append(z3.ForAll([a, b], z3.And(fv(t) == a, fi(t) == b, t > 0, tg(t) == 1, self.uf('root', I, I)(t) == z3.If(a < 0, a, self.uf('root', I, I)(a))), patterns=[t]))
+            if 'ekey' in self.ufs:
+                t = self.ufs['ekey'](a, b)
+                out.append(z3.ForAll([a, b], z3.And(self.uf('ekey_1', I, I)(t) == a, self.uf('ekey_2', I, I)(t) == b), patterns=[t]))
             for name, f in list(self.ufs.items()):
                 if not name.startswith('sub:'): continue
                 key = name[4:]
@@ -123,6 +126,9 @@ class Engine:
                     if nm == 'elem' and e.get_id() not in done:
                         done.add(e.get_id())
                         out.append(z3.And(fv(e) == e.arg(0), fi(e) == e.arg(1), e > 0, tg(e) == 1, self.root_of(e) == self.root_of(e.arg(0))))
+                    elif nm == 'ekey' and e.get_id() not in done:
+                        done.add(e.get_id())
+                        out.append(z3.And(self.uf('ekey_1', I, I)(e) == e.arg(0), self.uf('ekey_2', I, I)(e) == e.arg(1)))
                     elif nm.startswith('sub:') and e.get_id() not in done:
                         done.add(e.get_id())
                         key = nm[4:]
@@ -602,7 +608,9 @@ class Engine:
             vid = rd['id']
             if vid in st.env:
                 v = st.env[vid]
-                if isinstance(v, LVS): return v
+                if isinstance(v, LVS):
+                    if ('refbind!%s' % vid) in st.ghost: self.check_reference(st, vid, n, fr)
+                    return v
                 return LocalLV(vid)
             if kind == 'BindingDecl':
                 if self.lazy_locals:
@@ -709,6 +717,8 @@ class Engine:
             return p.data
         if isinstance(p, Rec) and p.t == 'optional':
             return p.f['value']
+        if isinstance(p, Rec) and p.t == 'setiter':
+            return self.models.setiter_deref(st, p, n, fr)
         raise Unsupported('dereference of %r at %s' % (p, self.where(n, fr)))
 
     def ev_ImplicitCastExpr(self, n, st, fr):
@@ -1494,6 +1504,29 @@ class Engine:
             self.declare(d, st, fr)
         return [(st, None)]
 
+    # references into vector storage: C++ invalidates them when the vector reallocates. A reference variable bound to an element
+    # remembers the storage epoch of its vector; every later use of the variable must find the same epoch ('dangling-ref' safety)
+    def element_owner(self, v):
+        r = None
+        if isinstance(v, ObjLV): r = v.ref
+        elif isinstance(v, ElemLV): return v.vref
+        if r is not None and z3.is_app(r) and r.decl().kind() == z3.Z3_OP_UNINTERPRETED and r.decl().name() == 'elem' and r.num_args() == 2:
+            return r.arg(0)
+        return None
+
+    def note_reference(self, st, vid, v):
+        if not self.safety_on('dangling-ref'): return
+        owner = self.element_owner(v)
+        if owner is None: return
+        st.ghost['refbind!%s' % vid] = Rec('refbind', {'vec': owner, 'epoch': self.hread(st, 'vec.epoch', owner, I)})
+
+    def check_reference(self, st, vid, n, fr):
+        rb = st.ghost.get('refbind!%s' % vid)
+        if rb is None: return
+        now = self.hread(st, 'vec.epoch', rb.f['vec'], I)
+        if now.eq(rb.f['epoch']): return
+        self.oblige(st, 'safety:reference-into-a-vector-is-still-valid(%s)' % self.var_names.get(vid, '?'), now == rb.f['epoch'], where=self.where(n, fr))
+
     def declare(self, d, st, fr):
         k = d['kind']
         if k == 'VarDecl':
@@ -1506,6 +1539,7 @@ class Engine:
                 v = self.ev(init[0], st, fr)
                 if not isinstance(v, LVS): v = self.materialize(st, v, init[0])
                 st.env[d['id']] = v
+                self.note_reference(st, d['id'], v)
                 return
             if not init:
                 if self.is_value_type(t):
